@@ -26,7 +26,9 @@ structure Env (A Au : Type) where
   pa : Parser A
   pu : Parser Au
   compute : A → Nat               -- action.ComputeUnits(r)
-  keys : A → List Bytes           -- action.StateKeys(actor, actionID): the keys of a Go map
+  keys : A → Bytes → List Bytes   -- action.StateKeys(actor, actionID): the keys of a Go map
+  actionID : Bytes → Nat → Bytes  -- chain.CreateActionID(txID, i)
+  txID : Bytes → Bytes            -- utils.ToID(tx bytes)
   chunks : Bytes → Nat            -- keys.MaxChunks(k)
   authCompute : Au → Nat          -- auth.ComputeUnits(r)
   sponsorKeys : Au → List Bytes   -- bh.SponsorStateKeys(auth.Sponsor())
@@ -61,11 +63,22 @@ structure Dims where
   write : Nat
   deriving DecidableEq, Repr
 
+/-- `for i, action := range actions`: the actions with their index -/
+def withIdx {α} : Nat → List α → List (α × Nat)
+  | _, [] => []
+  | i, a :: as => (a, i) :: withIdx (i + 1) as
+
+/-- `ids.Empty`, the placeholder tx id `EstimateUnits` derives the action ids from -/
+def emptyID : Bytes := zeros 32
+
 /-- `EstimateUnits(r, actions, authFactory)`; `authBw, authCompute = authFactory.MaxUnits()` -/
 def estimateUnits {A Au} (env : Env A Au) (r : Rules) (actions : List A) (authBw authCompute : Nat) :
     Option Dims :=
   let bandwidth := estBandwidth (actions.map fun a => (env.pa.bytes a).length) authBw
-  let chunks := actions.flatMap (fun a => (env.keys a).map env.chunks) ++ r.sponsorChunks
+  -- per action: `action.StateKeys(actor, CreateActionID(ids.Empty, uint8(i))).ChunkSizes()`, appended
+  -- (keys shared between actions are counted once per action)
+  let chunks := (withIdx 0 actions).flatMap (fun ai => (env.keys ai.1 (env.actionID emptyID ai.2)).map env.chunks)
+    ++ r.sponsorChunks
   match checked (r.baseCompute + sum (actions.map env.compute) + authCompute) with
   | none => none
   | some compute =>
@@ -84,9 +97,11 @@ def dedup : List Bytes → List Bytes
   | [] => []
   | k :: ks => if k ∈ ks then dedup ks else k :: dedup ks
 
-/-- `(*Transaction).StateKeys(bh)` -/
+/-- `(*Transaction).StateKeys(bh)`: action `i` is asked with `CreateActionID(t.GetID(), uint8(i))` -/
 def stateKeys {A Au} (env : Env A Au) (t : Tx A Au) : List Bytes :=
-  dedup (t.actions.flatMap env.keys ++ env.sponsorKeys t.auth)
+  dedup ((withIdx 0 t.actions).flatMap
+      (fun ai => env.keys ai.1 (env.actionID (env.txID (encodeTx env.pa env.pu t)) ai.2))
+    ++ env.sponsorKeys t.auth)
 
 /-- `(*Transaction).Units(bh, r)`; bandwidth is `len(tx.Bytes())` -/
 def units {A Au} (env : Env A Au) (r : Rules) (t : Tx A Au) : Option Dims :=
